@@ -399,10 +399,69 @@ pub fn fastq_any(rng: &Rng, max_recs: usize, max_noise: usize) -> (Vec<u8>, &'st
     }
 }
 
+/// byte sequences that real files start with and that a parser might be tempted to treat specially
+pub const MAGIC: &[&[u8]] = &[b"\xef\xbb\xbf", b"\xff\xfe", b"\xfe\xff", b"\x1f\x8b", b"\x00", b"BZh", b";", b"#", b"\x1a", b"\x0c", b" ", b"\t"];
+
 pub fn any_input(rng: &Rng, fmt: Fmt, max_recs: usize, max_noise: usize) -> (Vec<u8>, &'static str) {
-    match fmt {
+    let (mut v, class) = match fmt {
         Fmt::Fasta => fasta_any(rng, max_recs, max_noise),
         Fmt::Fastq => fastq_any(rng, max_recs, max_noise),
+    };
+    if rng.chance(1, 120) {
+        // a magic prefix (BOM, gzip magic, NUL, ...) in front of whatever was generated, or alone
+        let m = *rng.pick(MAGIC);
+        if rng.chance(1, 6) {
+            v = m.to_vec();
+        } else {
+            let mut w = m.to_vec();
+            w.extend_from_slice(&v);
+            v = w;
+        }
+        return (v, "magic_prefix");
+    }
+    (v, class)
+}
+
+/// valid input of `n` small records, used by the interrupt-storm / big-buffer profiles
+pub fn many_small_records(rng: &Rng, fmt: Fmt, target_len: usize) -> Vec<u8> {
+    let mut v = Vec::with_capacity(target_len + 64);
+    let mut i = 0;
+    while v.len() < target_len {
+        let len = rng.range(0, 40);
+        match fmt {
+            Fmt::Fasta => {
+                v.extend_from_slice(format!(">s{}\n", i).as_bytes());
+                if len > 0 {
+                    v.extend((0..len).map(|_| *rng.pick(b"ACGT")));
+                    v.push(b'\n');
+                }
+            }
+            Fmt::Fastq => {
+                v.extend_from_slice(format!("@s{}\n", i).as_bytes());
+                v.extend((0..len).map(|_| *rng.pick(b"ACGT")));
+                v.extend_from_slice(b"\n+\n");
+                v.extend((0..len).map(|_| b'I'));
+                v.push(b'\n');
+            }
+        }
+        i += 1;
+    }
+    v
+}
+
+/// "interrupt storm": a large buffer filled one or two bytes at a time with an Interrupted
+/// before every read, so that one single fill sees thousands of interruptions
+pub fn storm_cfg(rng: &Rng) -> Cfg {
+    Cfg {
+        cap: rng.range(1100, 2600),
+        policy: PolicySpec::Std,
+        script: match rng.below(3) {
+            0 => vec![0, 1],
+            1 => vec![0, 2, 0, 1],
+            _ => vec![0, 1, 0, 0, 3],
+        },
+        cuts: vec![],
+        faults: vec![],
     }
 }
 
